@@ -9,6 +9,8 @@ import props  # noqa
 
 ids = [json.loads(l)["id"] for l in open(os.path.join(ROOT, "properties.jsonl")) if l.strip()]
 NA = json.load(open(os.path.join(ROOT, "tools", "not_applicable.json")))
+# only checks that have been run end to end on the unchanged tree are claimed
+READY = set(json.load(open(os.path.join(ROOT, "tools", "ready.json"))))
 fixes = subprocess.run(["git", "-C", "/repo", "log", "--format=%h %s", "--grep=^fix:"],
                        stdout=subprocess.PIPE, text=True).stdout.strip().split("\n")
 hooks_commits = [l.split()[0] for l in subprocess.run(
@@ -19,7 +21,7 @@ served = []
 na = []
 for i in ids:
     cfg = props.PROPS.get(i)
-    if cfg is None or "manifest" not in cfg:
+    if cfg is None or "manifest" not in cfg or i not in READY:
         na.append({"property_id": i, "reason": NA.get(i, "check not built yet (planned: Coq model + correspondence, see DESIGN.md section 6)")})
         continue
     m = cfg["manifest"]
